@@ -54,6 +54,15 @@ class Fail(Exception):
         self.klass = klass
 
 
+# a distinct exception type per attempt (Fail1, Fail2, ...) so that a stale `err` tag shows; created at
+# import time (types created under the tracer get CrossHair's module name)
+_FAIL_TYPES = {i: type(f"Fail{i}", (Fail,), {"__module__": __name__}) for i in range(0, 16)}
+
+
+def fail_type(i):
+    return _FAIL_TYPES[i]
+
+
 class Res:
     """Result object returned by the operation on attempt i (klass None = success)."""
 
@@ -302,7 +311,7 @@ class World:
             self.objs[i] = (kind, obj, klass)
             return obj
         if kind == "exc":
-            obj = Fail(i, klass)
+            obj = fail_type(i)(i, klass)
         elif kind == "abort_exc":
             obj = AbortRetryError()
         elif kind in BASE_KINDS:
@@ -495,7 +504,8 @@ class World:
                 kw["sleep"] = self.handler
             kw["sleeper"] = self.asleeper if self.is_async else self.sleeper
             if P(self.p, "before_sleep", False):
-                kw["before_sleep"] = self.before_sleep
+                kw["before_sleep"] = (self.abefore_sleep if (self.is_async and P(self.p, "async_before_sleep", False))
+                                      else self.before_sleep)
         if P(self.p, "operation", None):
             kw["operation"] = self.p["operation"]
         return kw
